@@ -219,6 +219,13 @@ pub fn g3(f: &F, sigma: &[String]) -> Vec<String> {
         for d in [1usize, 5, 6, 7, 8, 16, 63, depth] {
             let full = format!("{}{}{}", open.repeat(d), leaf, close.repeat(d));
             out.push(full.clone());
+            // the whole tower as an element of a set / a conjunction / the operand of a symmetric
+            // statement (containers hash their elements: cost per level must not multiply)
+            if d >= 16 {
+                out.push(format!("{}{}{}", c.brackets_set_extension.0, full, c.brackets_set_extension.1));
+                out.push(format!("{}{}{}b{}{}{}", c.brackets.0, c.connecter_conjunction, c.separator, c.separator, full, c.brackets.1));
+                out.push(format!("{}{}{}b{}", st.brackets.0, full, st.copula_similarity, st.brackets.1));
+            }
             out.push(format!("{}{}", open.repeat(d), leaf)); // unterminated
             out.push(open.repeat(d)); // nothing inside
             out.push(format!("{}{}{}", open.repeat(d), leaf, close.repeat(d / 2))); // half closed
